@@ -33,7 +33,7 @@ theorem chunk_subrange_raw (hwf : t.WF) (h : Chunks ds t d chunks) (ch : List Se
   simpa [C02.raw, clsOf, List.map_map, Function.comp_def] using this
 
 /-- the classes of the splitting scan read at the character starts, paragraph by paragraph -/
-theorem multi_classes_chunks (hwf : t.WF) (hfsi : C02.FSIWidth ds t) (h : Chunks ds t d chunks) :
+theorem multi_classes_chunks (hwf : t.WF) (h : Chunks ds t d chunks) :
     Expand.contract t (computeInitialInfo ds t d true).classes .ON
       = (chunks.map (fun ch => (cRun d (clsOf ds ch)).cls)).flatten := by
   rw [contract_chunks hwf h]
@@ -44,23 +44,23 @@ theorem multi_classes_chunks (hwf : t.WF) (hfsi : C02.FSIWidth ds t) (h : Chunks
   have g1' : (computeInitialInfo ds (t.subrange (chunkStart ch) (chunkStop ch)) d false).classes
       = slice (computeInitialInfo ds t d true).classes (chunkStart ch) (chunkStop ch) := g1
   have hw' : (t.subrange (chunkStart ch) (chunkStop ch)).WF := hw
-  rw [← g1', single_contract ds _ d hw' (subrange_FSIWidth ds t _ _ hfsi), chunk_subrange_raw hwf h ch hch]
+  rw [← g1', single_contract ds _ d hw', chunk_subrange_raw hwf h ch hch]
 
 end
 
 /-- the classes of the splitting scan, read at the first unit of every character, are a function of the
     raw classes: X5c (as the per-character machine `cRun` of C02 performs it) on every P1 paragraph -/
-theorem multi_classes_chars (ds : DataSource) (t : Text) (d : Option Nat) (hwf : t.WF) (hfsi : C02.FSIWidth ds t) :
+theorem multi_classes_chars (ds : DataSource) (t : Text) (d : Option Nat) (hwf : t.WF) :
     Expand.contract t (computeInitialInfo ds t d true).classes .ON
       = ((paragraphsOf (C02.raw ds t)).map (fun p => (cRun d p).cls)).flatten := by
   obtain ⟨chunks, h⟩ := paras_structure ds t d hwf
-  rw [multi_classes_chunks hwf hfsi h, ← h.classes, List.map_map]
+  rw [multi_classes_chunks hwf h, ← h.classes, List.map_map]
   rfl
 
 /-- the levels of `BidiInfo` read at the first unit of every character: paragraph by paragraph, the levels
     of `ParagraphBidiInfo` of the paragraph's characters laid out one unit per character -/
 theorem multi_levels_chunks {ds : DataSource} {t : Text} {d : Option Nat} {chunks : List (List Seg)}
-    (hwf : t.WF) (hfsi : C02.FSIWidth ds t) (h : Chunks ds t d chunks)
+    (hwf : t.WF) (h : Chunks ds t d chunks)
     (hexp : ∀ p ∈ (bidiInfo ds t d).paras, PbiExpand ds (t.subrange p.start p.stop) d) (x : Nat) :
     Expand.contract t (bidiInfo ds t d).levels x
       = ((chunks.map (·.map (·.cp))).map (fun cps => (paragraphBidiInfo ds (charText cps) d).levels)).flatten := by
@@ -72,20 +72,24 @@ theorem multi_levels_chunks {ds : DataSource} {t : Text} {d : Option Nat} {chunk
   obtain ⟨f, hw, _⟩ := chunk_good hwf h ch hch
   have hw' : (t.subrange (chunkStart ch) (chunkStop ch)).WF := hw
   have hs : (paragraphBidiInfo ds (t.subrange (chunkStart ch) (chunkStop ch)) d).levels
-      = slice (bidiInfo ds t d).levels (chunkStart ch) (chunkStop ch) := (C10.C10_slice ds t hwf d _ hp).2.1
-  have he : PbiExpand ds (t.subrange (chunkStart ch) (chunkStop ch)) d := hexp _ hp
+      = slice (bidiInfo ds t d).levels (chunkStart ch) (chunkStop ch) := by
+    have := (C10.C10_slice ds t hwf d _ hp).2.1
+    simpa only [mkPara] using this
+  have he : PbiExpand ds (t.subrange (chunkStart ch) (chunkStop ch)) d := by
+    have := hexp _ hp
+    simpa only [mkPara] using this
   simp only [Function.comp]
-  rw [← hs, pbi_contract ds _ d hw' (subrange_FSIWidth ds t _ _ hfsi) he x, unitize_eq_charText,
+  rw [← hs, pbi_contract ds _ d hw' he x, unitize_eq_charText,
     chunk_subrange_cps hwf h ch hch]
 
 /-- two well-formed texts with the same characters: same per-character levels from `BidiInfo` -/
 theorem multi_levels_sameChars {ds : DataSource} {t t' : Text} {d : Option Nat} (hs : SameChars t t')
-    (hwf : t.WF) (hwf' : t'.WF) (hfsi : C02.FSIWidth ds t) (hfsi' : C02.FSIWidth ds t')
+    (hwf : t.WF) (hwf' : t'.WF)
     (hexp : ∀ p ∈ (bidiInfo ds t d).paras, PbiExpand ds (t.subrange p.start p.stop) d)
     (hexp' : ∀ p ∈ (bidiInfo ds t' d).paras, PbiExpand ds (t'.subrange p.start p.stop) d) (x : Nat) :
     Expand.contract t (bidiInfo ds t d).levels x = Expand.contract t' (bidiInfo ds t' d).levels x := by
   obtain ⟨chunks, h⟩ := paras_structure ds t d hwf
   obtain ⟨chunks', h'⟩ := paras_structure ds t' d hwf'
-  rw [multi_levels_chunks hwf hfsi h hexp x, multi_levels_chunks hwf' hfsi' h' hexp' x, chunks_sameChars h h' hs]
+  rw [multi_levels_chunks hwf h hexp x, multi_levels_chunks hwf' h' hexp' x, chunks_sameChars h h' hs]
 
 end UBidi.Props.C09
